@@ -17,8 +17,8 @@ C2S: seeded random sessions (long names / values, several tokens, multi-byte mut
      Trace_SignedValue (format of every created token, result of every decode, no forgery for v2).
 
 Binding demonstrated during development (see notes/websec.md): dropping the name comparison in
-_decode_signed_value_v2, `<` -> `<=` in the expiry test, and signing without the trailing pipe
-were each reported as VIOLATION by the S2C replay (and the trace validation).
+_decode_signed_value_v2, `<` -> `<=` in the v2 expiry test, and `version < min_version` -> `<=`
+were each reported by the S2C replay (diverges-from-format); the unchanged tree shows only F11.
 """
 import json
 import random
@@ -47,16 +47,19 @@ def _trace_sig(t, bad, l):
 
 def run(ctx):
     # 1. model checking (small symbolic signatures, full grid)
-    ctx.mc("websec", "SignedValue", "MC_SignedValue.cfg", required_actions=["Scenario", "ArbPut"],
-           overrides=ctx.pick({"ArbLen": 3, "Times": "{1234567}"}, {"ArbLen": 6}))
+    import os
+    mc_cfg = W.cfg_with(ctx, "MC_SignedValue.cfg",
+                        ctx.pick({"ArbLen": 3, "Times": "{1234567}", "EditBytes": "{48, 124, 58, 46}"}, {"ArbLen": 6}))
+    ctx.mc(W.SPEC_DIR, "SignedValue", os.path.relpath(mc_cfg, W.SPEC_DIR), required_actions=["Scenario", "ArbPut"],
+           timeout=ctx.pick(900, 1500))
     # the version-1 format is refuted on the specification itself (F11)
-    ctx.mc("websec", "SignedValue", "MC_SignedValue_v1.cfg",
+    ctx.mc("websec", "SignedValue", "MC_SignedValue_v1.cfg", timeout=ctx.pick(900, 1500),
            spec_violation_sig=lambda r, states: {"version": 1})
     # 2. spec -> code: every scenario with real signature lengths
     subs = ctx.pick({}, {"Names": "NamesB", "Values": "ValuesB", "Times": "{1, 1234567}",
                          "EditBytes": "{48, 49, 124, 58, 97, 61, 45, 46}", "ArbLen": 5})
     r, states = W.tlc_states(ctx, "SignedValue", W.cfg_with(ctx, "Gen_SignedValue.cfg", subs), count=False,
-                             label="Gen_SignedValue.cfg")
+                             label="Gen_SignedValue.cfg", timeout=ctx.pick(900, 1500))
     _CREATES.clear()
     scen = []
     for st in states:
